@@ -126,7 +126,7 @@ def bad_dim_vec(rnd):
 
 
 def concrete_item(it, rnd, bulk, pad=0):
-    meta = {"k1": "v%d" % rnd.randint(0, 3)}
+    meta = {"k1": "v%d" % rnd.randint(0, 3), "vid": "d%d" % it["id"]}      # vid: lets a metadata filter select exactly a set of ids
     if pad:
         meta["pad"] = "x" * pad
     q = it["q"]
@@ -157,6 +157,12 @@ def concrete_rpc(srv, tenant, op, rnd, jit=None):
     if t == "delete":
         return srv.req("Delete", tenant, doc_id=op["ids"][0])
     if t == "bdelete":
+        if op["ids"] and not jit.get("absent") and rnd.random() < 0.5:
+            # the same abstract call through the other selector of the RPC: a metadata filter that matches exactly these ids
+            # (documents still in the recent-write tier match there AND in the canonical store)
+            vals = ["d%d" % i for i in sorted(set(op["ids"]))]
+            flt = {"exact": {"key": "vid", "value": vals[0]}} if len(vals) == 1 and rnd.random() < 0.5 else {"in": {"key": "vid", "values": vals}}
+            return srv.req("BatchDelete", tenant, filter=flt)
         return srv.req("BatchDelete", tenant, ids=[FILLER0 + i for i in range(jit.get("absent", 0))] + list(op["ids"]))
     raise ToolError("no concrete request for %s" % t)
 
